@@ -57,10 +57,12 @@ ScoreIn(ls, p) == LET in == {k \in DOMAIN ls : p \in Range(ls[k])}
 TopicRes(sm, tp) ==
   LET ls == ListsFor(sm, tp, 1)
       all == FirstSeen(Flatten(ls), 1, <<>>)
-      sc == [p \in Range(all) |-> ScoreIn(ls, p)]
-      pos(p) == 1 + Cardinality({q \in Range(all) : sc[q] > sc[p]})
-                  + Cardinality({q \in Range(all) : sc[q] = sc[p] /\ IndexOf(all, q) < IndexOf(all, p)})
-      sorted == [n \in 1..Len(all) |-> CHOOSE p \in Range(all) : pos(p) = n]
+      ps == Range(all)
+      sc == [p \in ps |-> ScoreIn(ls, p)]
+      ix == [p \in ps |-> IndexOf(all, p)]
+      \* position after a STABLE sort by decreasing score
+      pos == [p \in ps |-> 1 + Cardinality({q \in ps : sc[q] > sc[p] \/ (sc[q] = sc[p] /\ ix[q] < ix[p])})]
+      sorted == [n \in 1..Len(all) |-> CHOOSE p \in ps : pos[p] = n]
       kept == SelectSeq(sorted, LAMBDA p : sc[p] > (MinReq - 1) * CountWeight)
   IN [topic |-> tp, prios |-> [n \in 1..Len(kept) |-> [p |-> kept[n], score |-> sc[kept[n]]]]]
 CalcTopics(ms) == LET sm == SortedMsgs(ms) IN {TopicRes(sm, tp) : tp \in TopicsOf(ms)}
